@@ -421,6 +421,7 @@ func engineConvert(x *X) {
 	x.out.NonTrivial = nFB > 0
 	x.out.States = append(x.out.States, uint64(nFB)<<16|uint64(nArt)<<4|uint64(len(spec.Repos)))
 	sb, _ := json.Marshal(spec)
+	x.mixs(string(sb))
 	x.out.Sample = fmt.Sprintf(`{"seed":%d,"profile":%q,"store":%q,"layout":%s,"crash_points":%d}`, p.Seed, p.Profile, p.Knobs.Store, trunc(sb, 900), x.out.CrashPoints)
 	if !json.Valid([]byte(x.out.Sample)) {
 		x.out.Sample = fmt.Sprintf(`{"seed":%d,"profile":%q,"store":%q,"fallback_indexes":%d,"listed":%d,"crash_points":%d}`, p.Seed, p.Profile, p.Knobs.Store, nFB, nArt, x.out.CrashPoints)
